@@ -62,6 +62,10 @@ def run(ctx):
              ("numpy ; 'it\"s' in platform_version or \"it's\" not  in platform_version", "'it\"s' in platform_version or \"it's\" not in platform_version"),
              ("numpy;python_version<'3.9'and python_version>='3.7'or python_version~='3.10.0'", "python_version < '3.9' and python_version >= '3.7' or python_version ~= '3.10.0'"),
              ("numpy ; python_full_version<='3.9' and implementation_version>'3' and os_name!='a' and sys_platform<'b'", "python_full_version <= '3.9' and implementation_version > '3' and os_name != 'a' and sys_platform < 'b'")]
+    FIXED += [("numpy>=1.0 ; 'a' == 'b' and os_name == 'nt'", "os_name == 'nt'"), ("numpy>=1.0;'a'=='b' and os_name=='nt'", "os_name == 'nt'"),
+              ("numpy ; os_name ~= 'x' and os_name == 'nt'", "os_name == 'nt'"), ("numpy ; python_version == 'Linux' or os_name == 'nt' or sys_platform == 'win32'", "os_name == 'nt' or sys_platform == 'win32'"),
+              ("numpy ; ('a' == 'b' and os_name == 'nt') or sys_platform == 'win32'", "os_name == 'nt' or sys_platform == 'win32'"), ("numpy ; os_name == 'nt' and 'a' == 'b' and sys_platform == 'win32'", "os_name == 'nt' and sys_platform == 'win32'"),
+              ("numpy ; os_name == sys_platform or extra == 'x'", "extra == 'x'")]
     for text, mtext in FIXED:
         ctx.evaluations += 1
         ctx.oracle_cases += 1
